@@ -1,7 +1,732 @@
 package main
 
-import "verif/harness/hlib"
+// Correspondence harness for C13: every scenario runs REAL model3d code from
+// several goroutines (or a library routine that parallelises internally at
+// several GOMAXPROCS values) and compares with the answer of sequential use.
+//
+//	c13 <kind> <params…> seq=<digest of the sequential answer>   ->   digest of the concurrent answer
+//
+// The Lean driver answers with the sequential digest (what the property
+// requires: "the same answers as sequential use"), so a difference is a
+// violation.  `c13 mapc w h` is answered by the model itself (every index once).
+//
+// The same binary built with `-race` and run with `-prop C13RACE` is the
+// race-detector leg (see lib/props_c13.py): same scenarios, no recording
+// wrappers that would add synchronisation, more repetitions.
+
+import (
+	"crypto/sha1"
+	"fmt"
+	"image"
+	"math"
+	"math/rand"
+	"runtime"
+	"sort"
+	"strings"
+	"sync"
+	"time"
+
+	"github.com/unixpickle/model3d/model2d"
+	"github.com/unixpickle/model3d/model3d"
+	"github.com/unixpickle/model3d/numerical"
+	"github.com/unixpickle/model3d/render3d"
+	"github.com/unixpickle/model3d/toolbox3d"
+	"verif/harness/hlib"
+)
 
 func main() { hlib.Main("C13", run) }
 
-func run(c *hlib.Ctx) {}
+func digest(parts ...string) string {
+	h := sha1.Sum([]byte(strings.Join(parts, "|")))
+	return fmt.Sprintf("%x", h[:8])
+}
+
+// par runs f(0..n-1) on n goroutines released together.
+func par(n int, f func(i int)) {
+	var wg sync.WaitGroup
+	start := make(chan struct{})
+	for i := 0; i < n; i++ {
+		wg.Add(1)
+		go func(i int) {
+			defer wg.Done()
+			<-start
+			f(i)
+		}(i)
+	}
+	close(start)
+	wg.Wait()
+}
+
+// withTimeout guards against a hang inside library code.
+func withTimeout(d time.Duration, f func() string) string {
+	ch := make(chan string, 1)
+	go func() { ch <- hlib.Guard(f) }()
+	select {
+	case s := <-ch:
+		return s
+	case <-time.After(d):
+		return "timeout"
+	}
+}
+
+func hx(x float64) string { return hlib.Hex(x) }
+
+func c3(c model3d.Coord3D) string { return hx(c.X) + hx(c.Y) + hx(c.Z) }
+func c2(c model2d.Coord) string   { return hx(c.X) + hx(c.Y) }
+
+type scenario struct {
+	race bool
+	c    *hlib.Ctx
+}
+
+func (s *scenario) emit(kind string, params string, seq, conc string) {
+	s.c.Stat("kind:"+kind, 1)
+	if seq != conc {
+		s.c.Stat("differs:"+kind, 1)
+	}
+	s.c.Emit(fmt.Sprintf("c13 %s %s seq=%s", kind, params, seq), conc)
+}
+
+// ------------------------------------------------------------------ meshes
+
+func mesh3(rng *rand.Rand) []*model3d.Triangle {
+	var m *model3d.Mesh
+	switch rng.Intn(4) {
+	case 0:
+		m = model3d.NewMeshIcosphere(model3d.Coord3D{}, 1, 2+rng.Intn(7))
+	case 1:
+		m = model3d.NewMeshRect(model3d.XYZ(-1, -1, -1), model3d.XYZ(1, 2, 3))
+	case 2:
+		m = model3d.NewMeshTorus(model3d.Coord3D{}, model3d.Z(1), 0.3, 1, 4+rng.Intn(8), 5+rng.Intn(10))
+	default:
+		m = model3d.NewMeshIcosphere(model3d.XYZ(1, 2, 3), 2, 12+rng.Intn(8))
+	}
+	ts := m.TriangleSlice()
+	sort.Slice(ts, func(i, j int) bool {
+		for k := 0; k < 3; k++ {
+			a, b := ts[i][k], ts[j][k]
+			if a != b {
+				if a.X != b.X {
+					return a.X < b.X
+				}
+				if a.Y != b.Y {
+					return a.Y < b.Y
+				}
+				return a.Z < b.Z
+			}
+		}
+		return false
+	})
+	return ts
+}
+
+func ids3(idOf map[*model3d.Triangle]int, ts []*model3d.Triangle) string {
+	out := make([]int, len(ts))
+	for i, t := range ts {
+		out[i] = idOf[t]
+	}
+	sort.Ints(out)
+	return fmt.Sprint(out)
+}
+
+func sortedCoords3(cs []model3d.Coord3D) string {
+	ss := make([]string, len(cs))
+	for i, c := range cs {
+		ss[i] = c3(c)
+	}
+	sort.Strings(ss)
+	return digest(ss...)
+}
+
+// query3 is one read-only "first query" on a mesh (they all go through getVertexToFace).
+func query3(m *model3d.Mesh, ts []*model3d.Triangle, idOf map[*model3d.Triangle]int, kind, pick int) string {
+	t := ts[pick%len(ts)]
+	switch kind % 5 {
+	case 0:
+		return "F" + ids3(idOf, m.Find(t[pick%3]))
+	case 1:
+		return "N" + ids3(idOf, m.Neighbors(t))
+	case 2:
+		return "V" + sortedCoords3(m.VertexSlice())
+	case 3:
+		var cs []model3d.Coord3D
+		m.IterateVertices(func(c model3d.Coord3D) { cs = append(cs, c) })
+		return "I" + sortedCoords3(cs)
+	default:
+		return "F2" + ids3(idOf, m.Find(t[0], t[1]))
+	}
+}
+
+func (s *scenario) meshq3(n int) {
+	rng := s.c.Rng
+	ts := mesh3(rng)
+	idOf := map[*model3d.Triangle]int{}
+	for i, t := range ts {
+		idOf[t] = i
+	}
+	kinds := make([]int, n)
+	picks := make([]int, n)
+	for i := range kinds {
+		kinds[i] = rng.Intn(5)
+		picks[i] = rng.Intn(1 << 20)
+	}
+	ref := model3d.NewMeshTriangles(ts)
+	seq := make([]string, n)
+	for i := range seq {
+		seq[i] = query3(ref, ts, idOf, kinds[i], picks[i])
+	}
+	fresh := model3d.NewMeshTriangles(ts) // index not built yet: the queries race the lazy build
+	conc := make([]string, n)
+	idx := make([]uintptr, n)
+	res := withTimeout(60*time.Second, func() string {
+		par(n, func(i int) {
+			conc[i] = query3(fresh, ts, idOf, kinds[i], picks[i])
+			idx[i] = model3d.VerifVertexIndexID(fresh)
+		})
+		return "ok"
+	})
+	same := "same-index"
+	for _, p := range idx {
+		if p != idx[0] {
+			same = "DIFFERENT-index-objects"
+		}
+	}
+	if res != "ok" {
+		same = res
+	}
+	s.emit("meshq3", fmt.Sprintf("n=%d faces=%d", n, len(ts)), digest(seq...)+":same-index", digest(conc...)+":"+same)
+}
+
+func mesh2(rng *rand.Rand) []*model2d.Segment {
+	var m *model2d.Mesh
+	switch rng.Intn(3) {
+	case 0:
+		m = model2d.MarchingSquaresSearch(&model2d.Circle{Radius: 1}, 0.02+0.1*rng.Float64(), 4)
+	case 1:
+		m = model2d.NewMeshRect(model2d.XY(-1, -2), model2d.XY(3, 1))
+	default:
+		m = model2d.NewMeshPolar(func(t float64) float64 { return 1 + 0.3*math.Sin(5*t) }, 50+rng.Intn(500))
+	}
+	ss := m.SegmentSlice()
+	sort.Slice(ss, func(i, j int) bool {
+		for k := 0; k < 2; k++ {
+			a, b := ss[i][k], ss[j][k]
+			if a != b {
+				if a.X != b.X {
+					return a.X < b.X
+				}
+				return a.Y < b.Y
+			}
+		}
+		return false
+	})
+	return ss
+}
+
+func query2(m *model2d.Mesh, ss []*model2d.Segment, idOf map[*model2d.Segment]int, kind, pick int) string {
+	sg := ss[pick%len(ss)]
+	ids := func(xs []*model2d.Segment) string {
+		out := make([]int, len(xs))
+		for i, x := range xs {
+			out[i] = idOf[x]
+		}
+		sort.Ints(out)
+		return fmt.Sprint(out)
+	}
+	coords := func(cs []model2d.Coord) string {
+		o := make([]string, len(cs))
+		for i, c := range cs {
+			o[i] = c2(c)
+		}
+		sort.Strings(o)
+		return digest(o...)
+	}
+	switch kind % 3 {
+	case 0:
+		return "F" + ids(m.Find(sg[pick%2]))
+	case 1:
+		return "V" + coords(m.VertexSlice())
+	default:
+		var cs []model2d.Coord
+		m.IterateVertices(func(c model2d.Coord) { cs = append(cs, c) })
+		return "I" + coords(cs)
+	}
+}
+
+func (s *scenario) meshq2(n int) {
+	rng := s.c.Rng
+	ss := mesh2(rng)
+	idOf := map[*model2d.Segment]int{}
+	for i, t := range ss {
+		idOf[t] = i
+	}
+	kinds := make([]int, n)
+	picks := make([]int, n)
+	for i := range kinds {
+		kinds[i] = rng.Intn(3)
+		picks[i] = rng.Intn(1 << 20)
+	}
+	ref := model2d.NewMeshSegments(ss)
+	seq := make([]string, n)
+	for i := range seq {
+		seq[i] = query2(ref, ss, idOf, kinds[i], picks[i])
+	}
+	fresh := model2d.NewMeshSegments(ss)
+	conc := make([]string, n)
+	idx := make([]uintptr, n)
+	res := withTimeout(60*time.Second, func() string {
+		par(n, func(i int) {
+			conc[i] = query2(fresh, ss, idOf, kinds[i], picks[i])
+			idx[i] = model2d.VerifVertexIndexID(fresh)
+		})
+		return "ok"
+	})
+	same := "same-index"
+	for _, p := range idx {
+		if p != idx[0] {
+			same = "DIFFERENT-index-objects"
+		}
+	}
+	if res != "ok" {
+		same = res
+	}
+	s.emit("meshq2", fmt.Sprintf("n=%d segs=%d", n, len(ss)), digest(seq...)+":same-index", digest(conc...)+":"+same)
+}
+
+// ------------------------------------------------------------------ colliders, SDFs, solids
+
+func (s *scenario) derived3(n int) {
+	rng := s.c.Rng
+	ts := mesh3(rng)
+	m := model3d.NewMeshTriangles(ts)
+	nq := 40
+	pts := make([]model3d.Coord3D, nq)
+	dirs := make([]model3d.Coord3D, nq)
+	for i := range pts {
+		pts[i] = model3d.XYZ(rng.Float64()*6-2, rng.Float64()*6-2, rng.Float64()*6-2)
+		dirs[i] = model3d.XYZ(rng.NormFloat64(), rng.NormFloat64(), rng.NormFloat64())
+	}
+	// goroutine i derives its own structure from the shared mesh (or uses the shared one)
+	// and answers all queries
+	sharedColl := model3d.MeshToCollider(m)
+	sharedSDF := model3d.MeshToSDF(m)
+	sharedSolid := model3d.NewColliderSolid(sharedColl)
+	// full=false leaves out the one answer that legitimately depends on the (map-iteration)
+	// order in which a structure was built: the normal NormalSDF reports when the closest
+	// point lies on an edge or vertex shared by several triangles.
+	answer := func(coll model3d.Collider, sdf model3d.FaceSDF, solid model3d.Solid, full bool) string {
+		var b strings.Builder
+		for i := range pts {
+			r := &model3d.Ray{Origin: pts[i], Direction: dirs[i]}
+			rc, ok := coll.FirstRayCollision(r)
+			fmt.Fprintf(&b, "%v%s%s;", ok, hx(rc.Scale), c3(rc.Normal))
+			fmt.Fprintf(&b, "%d;", coll.RayCollisions(r, nil))
+			fmt.Fprintf(&b, "%v;", coll.SphereCollision(pts[i], 0.3))
+			fmt.Fprintf(&b, "%s;", hx(sdf.SDF(pts[i])))
+			p, d := sdf.PointSDF(pts[i])
+			fmt.Fprintf(&b, "%s%s;", c3(p), hx(d))
+			nn, d2 := sdf.NormalSDF(pts[i])
+			if full {
+				fmt.Fprintf(&b, "%s", c3(nn))
+			}
+			fmt.Fprintf(&b, "%s;", hx(d2))
+			fmt.Fprintf(&b, "%v;", solid.Contains(pts[i]))
+		}
+		return digest(b.String())
+	}
+	seq := answer(sharedColl, sharedSDF, sharedSolid, true)
+	seqSet := answer(sharedColl, sharedSDF, sharedSolid, false)
+	fresh := model3d.NewMeshTriangles(ts)
+	conc := make([]string, n)
+	res := withTimeout(120*time.Second, func() string {
+		par(n, func(i int) {
+			switch i % 3 {
+			case 0: // shared immutable query structures
+				conc[i] = answer(sharedColl, sharedSDF, sharedSolid, true)
+			case 1: // derive from the shared, still index-less mesh while others query it
+				coll := model3d.MeshToCollider(fresh)
+				if answer(coll, model3d.MeshToSDF(fresh), model3d.NewColliderSolid(coll), false) == seqSet {
+					conc[i] = seq
+				} else {
+					conc[i] = "own-structure-differs"
+				}
+			default:
+				fresh.Find(ts[i%len(ts)][0])
+				conc[i] = answer(sharedColl, sharedSDF, sharedSolid, true)
+			}
+		})
+		return "ok"
+	})
+	out := seq
+	for _, a := range conc {
+		if a != seq {
+			out = "differs:" + a
+		}
+	}
+	if res != "ok" {
+		out = res
+	}
+	s.emit("derived3", fmt.Sprintf("n=%d faces=%d", n, len(ts)), seq, out)
+}
+
+func (s *scenario) derived2(n int) {
+	rng := s.c.Rng
+	ss := mesh2(rng)
+	m := model2d.NewMeshSegments(ss)
+	nq := 40
+	pts := make([]model2d.Coord, nq)
+	dirs := make([]model2d.Coord, nq)
+	for i := range pts {
+		pts[i] = model2d.XY(rng.Float64()*5-2, rng.Float64()*5-2.5)
+		dirs[i] = model2d.XY(rng.NormFloat64(), rng.NormFloat64())
+	}
+	coll := model2d.MeshToCollider(m)
+	sdf := model2d.MeshToSDF(m)
+	solid := model2d.NewColliderSolid(coll)
+	answer := func(coll model2d.Collider, sdf model2d.FaceSDF, solid model2d.Solid) string {
+		var b strings.Builder
+		for i := range pts {
+			r := &model2d.Ray{Origin: pts[i], Direction: dirs[i]}
+			rc, ok := coll.FirstRayCollision(r)
+			fmt.Fprintf(&b, "%v%s%s;", ok, hx(rc.Scale), c2(rc.Normal))
+			fmt.Fprintf(&b, "%d;%v;", coll.RayCollisions(r, nil), coll.CircleCollision(pts[i], 0.3))
+			p, d := sdf.PointSDF(pts[i])
+			fmt.Fprintf(&b, "%s%s%s;%v;", hx(sdf.SDF(pts[i])), c2(p), hx(d), solid.Contains(pts[i]))
+		}
+		return digest(b.String())
+	}
+	seq := answer(coll, sdf, solid)
+	fresh := model2d.NewMeshSegments(ss)
+	conc := make([]string, n)
+	res := withTimeout(120*time.Second, func() string {
+		par(n, func(i int) {
+			if i%2 == 0 {
+				conc[i] = answer(coll, sdf, solid)
+			} else {
+				c1 := model2d.MeshToCollider(fresh)
+				fresh.Find(ss[i%len(ss)][0])
+				conc[i] = answer(c1, model2d.MeshToSDF(fresh), model2d.NewColliderSolid(c1))
+			}
+		})
+		return "ok"
+	})
+	out := seq
+	for _, a := range conc {
+		if a != seq {
+			out = "differs:" + a
+		}
+	}
+	if res != "ok" {
+		out = res
+	}
+	s.emit("derived2", fmt.Sprintf("n=%d segs=%d", n, len(ss)), seq, out)
+}
+
+// ------------------------------------------------------------------ internally parallel routines
+
+var procCounts = []int{1, 2, 3, 4, 8, 16}
+
+// atProcs evaluates f at GOMAXPROCS = 1 (the sequential answer) and at every other count.
+func (s *scenario) atProcs(kind, params string, f func() string) {
+	old := runtime.GOMAXPROCS(0)
+	defer runtime.GOMAXPROCS(old)
+	runtime.GOMAXPROCS(1)
+	seq := withTimeout(120*time.Second, f)
+	for _, p := range procCounts[1:] {
+		runtime.GOMAXPROCS(p)
+		s.emit(kind, fmt.Sprintf("%s procs=%d", params, p), seq, withTimeout(120*time.Second, f))
+	}
+}
+
+func grayDigest(img *image.Gray) string {
+	return fmt.Sprintf("%dx%d:", img.Rect.Dx(), img.Rect.Dy()) + digest(string(img.Pix))
+}
+
+func (s *scenario) rasterize() {
+	rng := s.c.Rng
+	var solid model2d.Solid = model2d.JoinedSolid{
+		&model2d.Circle{Center: model2d.XY(rng.Float64(), rng.Float64()), Radius: 0.5 + rng.Float64()},
+		model2d.NewRect(model2d.XY(-1, -0.25), model2d.XY(2*rng.Float64(), 0.5)),
+	}
+	r := &model2d.Rasterizer{Scale: 10 + 30*rng.Float64(), Subsamples: 1 + rng.Intn(3)}
+	mesh := model2d.MarchingSquaresSearch(solid, 0.05, 4)
+	which := rng.Intn(3)
+	s.atProcs("rast", fmt.Sprintf("which=%d", which), func() string {
+		switch which {
+		case 0:
+			return grayDigest(r.RasterizeSolid(solid))
+		case 1:
+			return grayDigest(r.Rasterize(mesh))
+		default:
+			return grayDigest(r.RasterizeColliderSolid(model2d.MeshToCollider(mesh)))
+		}
+	})
+}
+
+func (s *scenario) kmeans() {
+	rng := s.c.Rng
+	n := 50 + rng.Intn(400)
+	data := make([]numerical.Vec3, n)
+	for i := range data {
+		// small integers: every sum and squared distance is exact, so the merge order cannot
+		// show up in the result (the model's merge is commutative and associative)
+		data[i] = numerical.Vec3{float64(rng.Intn(33) - 16), float64(rng.Intn(33) - 16), float64(rng.Intn(9))}
+	}
+	k := 2 + rng.Intn(6)
+	centers := make([]numerical.Vec3, k)
+	for i := range centers {
+		centers[i] = data[rng.Intn(n)]
+	}
+	s.atProcs("kmeans", fmt.Sprintf("n=%d k=%d", n, k), func() string {
+		km := &numerical.KMeans[numerical.Vec3]{Centers: append([]numerical.Vec3{}, centers...), Data: data}
+		loss := km.Iterate()
+		var b strings.Builder
+		b.WriteString(hx(loss))
+		for _, c := range km.Centers {
+			b.WriteString(hx(c[0]) + hx(c[1]) + hx(c[2]))
+		}
+		fmt.Fprint(&b, km.Assign(data))
+		return digest(b.String())
+	})
+}
+
+func meshDigest(m *model3d.Mesh) string {
+	ts := m.TriangleSlice()
+	ss := make([]string, len(ts))
+	for i, t := range ts {
+		ss[i] = c3(t[0]) + c3(t[1]) + c3(t[2])
+	}
+	sort.Strings(ss)
+	return fmt.Sprintf("%d:", len(ts)) + digest(ss...)
+}
+
+func (s *scenario) meshing() {
+	rng := s.c.Rng
+	var solid model3d.Solid = model3d.JoinedSolid{
+		&model3d.Sphere{Center: model3d.XYZ(rng.Float64(), 0, 0), Radius: 0.6 + 0.5*rng.Float64()},
+		model3d.NewRect(model3d.XYZ(-0.5, -0.25, -0.3), model3d.XYZ(1.5, 0.5, 0.3+rng.Float64())),
+	}
+	delta := 0.08 + 0.1*rng.Float64()
+	which := rng.Intn(5)
+	s.atProcs("meshing", fmt.Sprintf("which=%d", which), func() string {
+		switch which {
+		case 0:
+			return meshDigest(model3d.MarchingCubes(solid, delta))
+		case 1:
+			return meshDigest(model3d.MarchingCubesSearch(solid, delta, 5))
+		case 2:
+			return meshDigest(model3d.MarchingCubesFilter(solid, func(r *model3d.Rect) bool { return true }, delta))
+		case 3:
+			return meshDigest(model3d.MarchingCubesC2F(solid, 2*delta, delta, 0, 4))
+		default:
+			dc := &model3d.DualContouring{S: model3d.SolidSurfaceEstimator{Solid: solid}, Delta: delta,
+				Repair: true, Clip: true, MaxGos: runtime.GOMAXPROCS(0)}
+			return meshDigest(dc.Mesh())
+		}
+	})
+}
+
+func (s *scenario) render() {
+	rng := s.c.Rng
+	mesh := model3d.NewMeshIcosphere(model3d.XYZ(0.5, 0, 0), 0.7, 3)
+	obj := render3d.JoinedObject{
+		&render3d.ColliderObject{Collider: &model3d.Sphere{Center: model3d.XYZ(-0.6, 0, 0), Radius: 0.5},
+			Material: &render3d.LambertMaterial{DiffuseColor: render3d.NewColor(0.5), AmbientColor: render3d.NewColor(0.1)}},
+		&render3d.ColliderObject{Collider: model3d.MeshToCollider(mesh),
+			Material: &render3d.PhongMaterial{Alpha: 5, SpecularColor: render3d.NewColor(0.3), DiffuseColor: render3d.NewColorRGB(0.2, 0.5, 0.7)}},
+	}
+	cam := render3d.NewCameraAt(model3d.XYZ(rng.Float64(), -4, 1), model3d.Coord3D{}, 0.8)
+	w, h := 8+rng.Intn(24), 8+rng.Intn(24)
+	s.atProcs("render", fmt.Sprintf("w=%d h=%d", w, h), func() string {
+		img := render3d.NewImage(w, h)
+		rc := &render3d.RayCaster{Camera: cam, Lights: []*render3d.PointLight{{Origin: model3d.XYZ(3, -3, 3), Color: render3d.NewColor(1)}}}
+		rc.Render(img, obj)
+		var b strings.Builder
+		for _, c := range img.Data {
+			b.WriteString(c3(c))
+		}
+		return digest(b.String())
+	})
+}
+
+// renderRace exercises the sampling renderers (per-goroutine RNGs: results are not
+// deterministic, so this is only used by the race-detector leg).
+func (s *scenario) renderRace() {
+	obj := &render3d.ColliderObject{Collider: &model3d.Sphere{Radius: 1},
+		Material: &render3d.LambertMaterial{DiffuseColor: render3d.NewColor(0.5), EmissionColor: render3d.NewColor(0.2)}}
+	cam := render3d.NewCameraAt(model3d.XYZ(0, -4, 0), model3d.Coord3D{}, 0.8)
+	img := render3d.NewImage(16, 16)
+	logs := 0
+	rt := &render3d.RecursiveRayTracer{Camera: cam, NumSamples: 4, MaxDepth: 2,
+		LogFunc: func(p, s float64) { logs++ }}
+	rt.Render(img, obj)
+	rt.RayVariance(obj, 8, 8, 3)
+	light := render3d.JoinAreaLights(render3d.NewSphereAreaLight(&model3d.Sphere{Center: model3d.XYZ(3, -3, 3), Radius: 0.5}, render3d.NewColor(5)))
+	bp := &render3d.BidirPathTracer{Camera: cam, Light: light, MaxDepth: 3, MinDepth: 2, NumSamples: 2}
+	bp.Render(img, obj)
+	s.c.Stat("kind:renderRace", 1)
+}
+
+// recSDF records every (point, value) asked through SDF(): ProjectMedialAxis only uses
+// PointSDF/Min/Max, so the SDF calls are exactly the `radius := p.SDF(proj)` of AddSpheresSDF.
+type recSDF struct {
+	inner model2d.PointSDF
+	mu    sync.Mutex
+	pts  []model2d.Coord
+	vals []float64
+}
+
+func (r *recSDF) Min() model2d.Coord { return r.inner.Min() }
+func (r *recSDF) Max() model2d.Coord { return r.inner.Max() }
+func (r *recSDF) PointSDF(c model2d.Coord) (model2d.Coord, float64) {
+	return r.inner.PointSDF(c)
+}
+
+func (r *recSDF) SDF(c model2d.Coord) float64 {
+	v := r.inner.SDF(c)
+	r.mu.Lock()
+	r.pts = append(r.pts, c)
+	r.vals = append(r.vals, v)
+	r.mu.Unlock()
+	return v
+}
+
+func (s *scenario) heightMap() {
+	rng := s.c.Rng
+	var shape model2d.PointSDF = &model2d.Circle{Radius: 1}
+	if rng.Intn(2) == 0 {
+		shape = model2d.MeshToSDF(model2d.NewMeshPolar(func(t float64) float64 { return 1 + 0.4*math.Sin(3*t) }, 200))
+	}
+	maxRadius := 0.0
+	if rng.Intn(2) == 0 {
+		maxRadius = 0.1 + 0.3*rng.Float64()
+	}
+	size := 16 + rng.Intn(80)
+	num := 200 + rng.Intn(800)
+	old := runtime.GOMAXPROCS(0)
+	defer runtime.GOMAXPROCS(old)
+	for _, p := range []int{2, 8, 16} {
+		runtime.GOMAXPROCS(p)
+		var seq, conc string
+		res := withTimeout(120*time.Second, func() string {
+			if s.race {
+				hm := toolbox3d.NewHeightMap(shape.Min(), shape.Max(), size)
+				hm.AddSpheresSDF(shape, num, 0.02, maxRadius)
+				return "ok"
+			}
+			rec := &recSDF{inner: shape}
+			hm := toolbox3d.NewHeightMap(shape.Min(), shape.Max(), size)
+			hm.AddSpheresSDF(rec, num, 0.02, maxRadius)
+			ref := toolbox3d.NewHeightMap(shape.Min(), shape.Max(), size)
+			for i, c := range rec.pts {
+				if maxRadius != 0 {
+					ref.AddSphereFill(c, rec.vals[i], maxRadius)
+				} else {
+					ref.AddSphere(c, rec.vals[i])
+				}
+			}
+			var a, b strings.Builder
+			for i := range hm.Data {
+				a.WriteString(hx(ref.Data[i]))
+				b.WriteString(hx(hm.Data[i]))
+			}
+			seq, conc = fmt.Sprintf("%d:", len(rec.pts))+digest(a.String()), fmt.Sprintf("%d:", len(rec.pts))+digest(b.String())
+			return "ok"
+		})
+		if res != "ok" {
+			conc = res
+		}
+		s.emit("heightmap", fmt.Sprintf("size=%d spheres=%d fill=%v procs=%d", size, num, maxRadius != 0, p), seq, conc)
+	}
+}
+
+func (s *scenario) cacheFunc(n int) {
+	rng := s.c.Rng
+	f := func(x float64) float64 { return math.Sqrt(x*x+1) * 3 }
+	cf := model2d.CacheScalarFunc(f)
+	xs := make([]float64, 64)
+	for i := range xs {
+		xs[i] = float64(rng.Intn(16)) / 4
+	}
+	var sb strings.Builder
+	for _, x := range xs {
+		sb.WriteString(hx(f(x)))
+	}
+	seq := digest(sb.String())
+	conc := make([]string, n)
+	par(n, func(i int) {
+		var b strings.Builder
+		for _, x := range xs {
+			b.WriteString(hx(cf(x)))
+		}
+		conc[i] = digest(b.String())
+	})
+	out := seq
+	for _, a := range conc {
+		if a != seq {
+			out = "differs:" + a
+		}
+	}
+	s.emit("cachefunc", fmt.Sprintf("n=%d", n), seq, out)
+}
+
+// mapCoords: every pixel index is handed to exactly one worker call (model-computed answer).
+func (s *scenario) mapCoords() {
+	rng := s.c.Rng
+	w, h := 1+rng.Intn(40), 1+rng.Intn(40)
+	counts := make([]int32, w*h)
+	var mu sync.Mutex
+	bad := 0
+	render3d.VerifMapCoordinates(w, h, func(worker *int, x, y, idx int) {
+		mu.Lock()
+		defer mu.Unlock()
+		if idx < 0 || idx >= w*h || idx != y*w+x {
+			bad++
+			return
+		}
+		counts[idx]++
+	})
+	once := 0
+	for _, c := range counts {
+		if c == 1 {
+			once++
+		}
+	}
+	s.c.Stat("kind:mapc", 1)
+	s.c.Emit(fmt.Sprintf("c13 mapc %d %d", w, h), fmt.Sprintf("n=%d once=%d bad=%d", w*h, once, bad))
+}
+
+func run(c *hlib.Ctx) {
+	s := &scenario{race: c.Prop == "C13RACE", c: c}
+	if s.race && runtime.GOMAXPROCS(0) < 4 {
+		runtime.GOMAXPROCS(4)
+	}
+	threadCounts := []int{2, 3, 4, 8, 16, 32}
+	rounds := c.N / 10
+	if rounds < 1 {
+		rounds = 1
+	}
+	for r := 0; r < rounds; r++ {
+		for _, n := range threadCounts {
+			s.meshq3(n)
+			s.meshq2(n)
+		}
+		n := threadCounts[r%len(threadCounts)]
+		s.derived3(n)
+		s.derived2(n)
+		s.cacheFunc(n)
+		if !s.race {
+			s.mapCoords()
+		}
+		if r%2 == 0 || s.race {
+			s.rasterize()
+			s.kmeans()
+			s.meshing()
+			s.render()
+			s.heightMap()
+		}
+		if s.race {
+			s.renderRace()
+		}
+	}
+}
